@@ -14,7 +14,7 @@ package main
 import (
 	"fmt"
 	"math/big"
-	"sort"
+	"os"
 	"strconv"
 	"strings"
 
@@ -109,19 +109,27 @@ func genHdr(r *vh.RNG, n uint64, nver int) hdr {
 	return hdr{n: n, cv: uint64(r.Range(1, nver)), nv: uint64(r.Intn(nver + 2)), na: smallOrBig(r, 3), nvb: smallOrBig(r, n), nso: smallOrBig(r, n+3)}
 }
 
-// Go verifier with logging.Crit avoided: returns "crash" where the Go code would exit the process.
+// Go verifier. logging.Crit exits the process and cannot be intercepted, so an input is only handed to the real
+// function when no locally unknown version is involved (the only way the unchanged code reaches Crit); otherwise
+// "skip" is returned and the crash outcome rests on the regenerated model alone (counted in the distribution).
+// Before every call the input is recorded, so that a process exit inside the Go code leaves its replay behind.
+var lastInput *os.File
+
 func goVerify(t []vp, prev, curr hdr) string {
 	known := func(k uint64) bool {
 		_, ok := params.Versions[params.YouVersion(k)]
 		return ok
 	}
-	if !known(prev.cv) {
-		return "crash"
+	if !known(prev.cv) || !known(curr.cv) {
+		return "skip"
 	}
-	// the upgrade branch Crit()s when the new version is unknown and no error was found before;
-	// evaluate that guard here, identically, so the process survives.
-	if prev.nso == curr.n && prev.nv == curr.cv && curr.nv == 0 && curr.nvb == 0 && curr.nso == 0 && curr.na == 0 && !known(curr.cv) {
-		return "crash"
+	if lastInput != nil {
+		b := []byte("# property C12\n# the harness process exited inside VerifyYouVersionState on this input (logging.Crit)\n" +
+			strings.Join(tableLines(t), "\n") + "\nX " + prev.String() + " " + curr.String() + "\n")
+		for len(b) < 600 {
+			b = append(b, '\n') // fixed-size record: one pwrite, no truncate
+		}
+		lastInput.WriteAt(b, 0)
 	}
 	if err := core.VerifyYouVersionState(prev.toGo(), curr.toGo()); err != nil {
 		return "err"
@@ -249,8 +257,13 @@ func growChain(r *vh.RNG, t []vp, start hdr, steps int) []hdr {
 				cands = append(cands, m)
 			}
 		}
-		// upgrade candidate
-		cands = append(cands, hdr{n: prev.n + 1, cv: prev.nv})
+		// "do nothing" candidates: carry the parent's version state over unchanged / with one more approval
+		cands = append(cands, hdr{n: prev.n + 1, cv: prev.cv, nv: prev.nv, na: prev.na, nvb: prev.nvb, nso: prev.nso})
+		if prev.nv != 0 {
+			cands = append(cands, hdr{n: prev.n + 1, cv: prev.cv, nv: prev.nv, na: prev.na + 1, nvb: prev.nvb, nso: prev.nso})
+			// upgrade candidate
+			cands = append(cands, hdr{n: prev.n + 1, cv: prev.nv})
+		}
 		// new-proposal candidates
 		for k := 0; k < 3; k++ {
 			pp := vp{}
@@ -262,13 +275,15 @@ func growChain(r *vh.RNG, t []vp, start hdr, steps int) []hdr {
 			nvb := prev.n + 1 + pp.voteRounds
 			cands = append(cands, hdr{n: prev.n + 1, cv: prev.cv, nv: uint64(r.Range(1, len(t)+1)), na: 1, nvb: nvb, nso: nvb + pp.min + uint64(r.Intn(int(pp.max-pp.min)+1))})
 		}
-		// adversary prefers non-honest accepted candidates
-		r2 := r.Fork()
+		// the adversary tries the candidates in a uniformly random order (Fisher-Yates)
 		perm := make([]int, len(cands))
 		for i := range perm {
 			perm[i] = i
 		}
-		sort.Slice(perm, func(a, b int) bool { return r2.Bool() })
+		for i := len(perm) - 1; i > 0; i-- {
+			j := r.Intn(i + 1)
+			perm[i], perm[j] = perm[j], perm[i]
+		}
 		picked := false
 		for _, i := range perm {
 			c := cands[i]
@@ -307,6 +322,9 @@ func hasMinZero(t []vp) bool {
 
 func run(c *vh.Ctx) error {
 	quiet.Silence()
+	os.MkdirAll(c.ReplayDir, 0o755)
+	lastInput, _ = os.Create(c.ReplayDir + "/C12-last-input.replay")
+	defer os.Remove(c.ReplayDir + "/C12-last-input.replay")
 	res := c.Res
 	res.Rule = "case = (parameter table, prev, curr) pair or an adversarially grown header chain; non-trivial when the pair is in a voting/approved phase or at a phase boundary (prev.NextVersion != 0, or a proposal opens, or round == NextVoteBefore/NextSwitchOn), chains when they contain a proposal; distinct by canonical text"
 	var drv *vh.Driver
@@ -331,6 +349,7 @@ func run(c *vh.Ctx) error {
 	nontrivial := func(prev, cur hdr) bool {
 		return prev.nv != 0 || cur.nv != 0 || prev.nvb == cur.n || prev.nso == cur.n
 	}
+	corrFails := 0
 	nTables := c.N(150, 3000)
 	pairsPer := 60
 	if c.Search {
@@ -368,7 +387,10 @@ func run(c *vh.Ctx) error {
 					rp := vh.WriteReplay(c.ReplayDir, "C12", fmt.Sprintf("corr-process-%d-%d", ti, k), c.Seed,
 						[]string{"correspondence: ProcessYouVersionState differs from generated model", "go: " + exp, "lean: " + m},
 						append(tableLines(t), "P "+prev.String()))
-					res.Fail("correspondence", "", "process: go="+exp+" lean="+m, rp)
+					if corrFails < 8 {
+						res.Fail("correspondence", "", "process: go="+exp+" lean="+m, rp)
+					}
+					corrFails++
 				}
 				res.TracesVsImpl++
 			}
@@ -414,11 +436,16 @@ func run(c *vh.Ctx) error {
 			res.Dist("verify-" + gv)
 			if drv != nil {
 				m := class(ask("X " + prev.String() + " " + cur.String()))
-				if m != gv {
+				if gv == "skip" {
+					res.Dist("verify-model-only-" + m)
+				} else if m != gv {
 					rp := vh.WriteReplay(c.ReplayDir, "C12", fmt.Sprintf("corr-verify-%d-%d", ti, k), c.Seed,
 						[]string{"correspondence: VerifyYouVersionState differs from generated model", "go: " + gv, "lean: " + m},
 						append(tableLines(t), "X "+prev.String()+" "+cur.String()))
-					res.Fail("correspondence", "", "verify: go="+gv+" lean="+m, rp)
+					if corrFails < 8 {
+						res.Fail("correspondence", "", "verify: go="+gv+" lean="+m, rp)
+					}
+					corrFails++
 				}
 				res.TracesVsImpl++
 			}
